@@ -325,8 +325,10 @@ type yCore struct {
 	w *World
 }
 
-func (c yCore) Pods(ns string) corev1client.PodInterface { return yPods{c.CoreV1Interface.Pods(ns), c.w} }
-func (c yCore) Nodes() corev1client.NodeInterface         { return yNodes{c.CoreV1Interface.Nodes(), c.w} }
+func (c yCore) Pods(ns string) corev1client.PodInterface {
+	return yPods{c.CoreV1Interface.Pods(ns), c.w}
+}
+func (c yCore) Nodes() corev1client.NodeInterface { return yNodes{c.CoreV1Interface.Nodes(), c.w} }
 func (c yCore) ConfigMaps(ns string) corev1client.ConfigMapInterface {
 	return yCMs{c.CoreV1Interface.ConfigMaps(ns), c.w}
 }
